@@ -14,6 +14,9 @@ CLAIMED = {
  "C09": ("string-shape analysis of the emitter + re._parser AST of the stripping pattern, decided by automata inclusion; pairing / guard / sibling-agreement rules; polynomial normal forms",
          "Decides the strippable / self-contained / no_color / bytes=text / invalid=>ValueError clauses for every colour specification: the regular language of everything the package can emit is computed from the source and shown to be included in (and matched exactly by) the stripping pattern; prefix/suffix pairing with the reset, construction-site pairing, guard of every code append by `not no_color`, and the numeric tables (names, cube polynomial, grey ramp, range checks, effect codes) against the SGR/xterm oracle.",
          "Oracle is the ECMA-48 SGR / xterm-256 grammar, not a terminal; TypeError for ill-typed colour containers is not decided; assumes visible text has no ESC (as the property states).", "3/C09"),
+ "C15": ("taint / non-interference over def-use closures, per-branch placeholder-value pairing, constant folding of clause tables, finite abstract interpretation of the operator normalisation",
+         "Decides the second sentence of the property completely (values never reach the SQL text; one placeholder per bound value in matching order) for every condition tree, because the rule quantifies over data-flow paths of the three make_text_update_values implementations and _execute, not over sampled values; and decides the operator normalisation (=/!= with None or a collection, empty IN / NOT IN, NULL tests, unsupported operators) exhaustively over a finite abstract domain of 17 operator spellings x 11 value kinds.",
+         "The row set under SQL three-valued logic (first sentence) needs a database and is NOT decided, only its finite normalisation table is. Field names, static condition strings, SELECT text, group_by and _order_by are programmer-supplied SQL by design.", "3/C15"),
 }
 
 NOT_APPLICABLE = {
